@@ -103,11 +103,12 @@ where
         // A[7:0]
         // 0.. A[8]
         // 0.. B[2:0]
-        // Default Values: A = Height of Screen (0x127), B = 0x00 (GD, SM and TB=0?)
+        // Default Values: A = Height of Screen - 1 (0x127), B = 0x00 (GD, SM and TB=0?)
+        // A holds the number of gate lines minus one
         self.interface.cmd_with_data(
             spi,
             Command::DriverOutputControl,
-            &[HEIGHT as u8, (HEIGHT >> 8) as u8, 0x00],
+            &[(HEIGHT - 1) as u8, ((HEIGHT - 1) >> 8) as u8, 0x00],
         )?;
 
         // 3 Databytes: (and default values from datasheet and arduino)
